@@ -33,7 +33,7 @@ def mapRangeLedger : List (String × String × String × Nat × String × String
   ("expr_type.go", "Merge", "other.Props", 1, "append", "sorted"),
   ("expr_type.go", "DeepCopy", "ty.Props", 1, "", "commutative"),
   ("expr_type.go", "typeOfJSONValue", "v", 1, "append", "sorted"),
-  ("pass.go", "Visit", "n.Jobs", 1, "return", "positions"),
+  ("pass.go", "Visit", "n.Jobs", 1, "append", "sorted"),
   ("reusable_workflow.go", "WriteWorkflowCallEvent", "event.Outputs", 1, "", "commutative"),
   ("reusable_workflow.go", "WriteWorkflowCallEvent", "event.Secrets", 1, "", "commutative"),
   ("rule_action.go", "checkAction", "exec.Inputs", 1, "append+report", "positions"),
